@@ -54,7 +54,7 @@ T_Init ==
     /\ UNCHANGED <<path, op, cur, exp, rem, ntrav, nxt, part, rootPath, retries, res>> /\ Keep
 T_Begin ==
     /\ l <= Len(Rec) /\ E.ev = "begin" /\ pc = "idle" /\ Consume
-    /\ path' = E.body /\ op' = [op |-> "resolve", nofollow |-> E.flag = "nofollow", nosym |-> FALSE, acc |-> "PATH", odir |-> FALSE]
+    /\ path' = E.body /\ op' = [op |-> E.op, nofollow |-> E.flag = "nofollow", nosym |-> E.n2 = "nosym", acc |-> E.kind, odir |-> E.inj]
     /\ pc' = "start" /\ cur' = R /\ exp' = <<>> /\ rem' = <<>> /\ ntrav' = 0 /\ nxt' = 0 /\ part' = "" /\ rootPath' = <<>> /\ res' = NoRes
     /\ UNCHANGED <<fs, retries, everIn>> /\ Keep
 T_Att ==
@@ -91,10 +91,19 @@ T_DPath ==
        \/ pc = "fin2" /\ E.body = DPath(fs, cur)
     /\ (E_DD1 \/ E_DD2 \/ E_DD3 \/ E_Fin1 \/ E_Fin2 \/ E_Fin3)
     /\ UNCHANGED <<fs, path, op, everIn>> /\ Keep
+\* after the walk: readlinkat(handle, "") of Root::readlink, and the d_path / fstat reads of the reopen through the
+\* fd magic-link of open_subpath -- they address the inode the walk returned (PostResolve is one atomic step of the model)
+T_Post ==
+    /\ l <= Len(Rec) /\ E.ev = "sys" /\ pc = "done" /\ Consume
+    /\ \/ op.op = "readlink" /\ E.nr = "readlink" /\ E.d1 = cur
+       \/ op.op = "open" /\ E.nr \in {"dpath", "fstat"}
+    /\ UNCHANGED <<fs, path, op, pc, cur, exp, rem, ntrav, nxt, part, rootPath, retries, res, everIn>> /\ Keep
 T_End ==
     /\ l <= Len(Rec) /\ E.ev = "end" /\ pc = "done" /\ Consume
     /\ (E.ret = 0) = res.ok
-    /\ (res.ok => res.ino = E.rid)
+    /\ ((res.ok /\ E.rid # 0) => res.ino = E.rid)
+    /\ ((res.ok /\ op.op = "readlink") => res.body = E.body)
+    /\ (~res.ok /\ E.flag # "" => res.err = E.flag)
     /\ pc' = "idle"
     /\ UNCHANGED <<fs, path, op, cur, exp, rem, ntrav, nxt, part, rootPath, retries, res, everIn>> /\ Keep
 \* events of other calls / snapshots
@@ -102,7 +111,7 @@ T_Skip ==
     /\ l <= Len(Rec) /\ E.ev \in {"snap"} /\ pc = "idle" /\ Consume
     /\ UNCHANGED vars /\ UNCHANGED acc
 
-TraceNext == T_Init \/ T_Begin \/ T_Att \/ Silent \/ T_Open \/ T_Stat \/ T_MayFollow \/ T_Readlink \/ T_DPath \/ T_End \/ T_Skip
+TraceNext == T_Init \/ T_Begin \/ T_Att \/ Silent \/ T_Open \/ T_Stat \/ T_MayFollow \/ T_Readlink \/ T_DPath \/ T_Post \/ T_End \/ T_Skip
 TraceSpec == TraceInit /\ [][TraceNext]_tvars
 
 Progress == TLCSet(1, IF TLCGet(1) > l THEN TLCGet(1) ELSE l)
